@@ -133,6 +133,11 @@ func c03Gen(rng *verifsim.RNG, idx int, tier string) *Plan {
 			n.Ifaces[0].Down = false
 		}
 	}
+	// whatever is carried from one connection generation into the next must
+	// leave the RA encodable and its meaning intact
+	if maybeReinit(rng, p, "eth0", 100*nsMs, 4*nsSec, 0.25) {
+		p.Actions = append(p.Actions, rsAction(4500*nsMs+jitter(rng), hostAddr(3)))
+	}
 	p.Horizon = 5 * nsSec
 	p.Stop = []string{"SIGTERM", "SIGHUP"}[rng.Intn(2)]
 	return p
